@@ -7,7 +7,8 @@ rows = []
 own_hit = own_total = any_hit = 0
 for name in sorted(d for d in os.listdir(f"{V}/seeded") if os.path.isdir(f"{V}/seeded/{d}")):
     meta = json.load(open(f"{V}/seeded/{name}/meta.json"))
-    res = m.get(name, {})
+    res = dict(m.get(name, {}))
+    stale = res.pop("stale", None)
     if "error" in res:
         det = "(patch no longer applies)"
     else:
@@ -18,6 +19,8 @@ for name in sorted(d for d in os.listdir(f"{V}/seeded") if os.path.isdir(f"{V}/s
             own_hit += 1
         if any(r["exit"] == 1 and r["violation_lines"] for r in res.values()):
             any_hit += 1
+    if stale and "error" not in m.get(name, {}):
+        det += " (at the HEAD it was written for; the patch no longer applies after later repairs)"
     note = meta.get("note", "") or (("outside every claim: " + meta["outside_every_claim"]) if meta.get("outside_every_claim") else "")
     needs = meta.get("needs_to_manifest", "").replace("|", "&#124;")
     rows.append("| " + name + " | " + needs + " | " + det + ((" — " + note) if note else "") + " |")
